@@ -25,6 +25,13 @@ CLAIMS = {
             "messages must round-trip. BlockOption.decode is additionally translated to z3 bit-vectors (E2).",
             "reference codec vf/refcodec.py written from the RFC; byte-string lengths concrete per obligation; option numbers by index or pre-populated enum ranges; CPython UTF-8 codec trusted",
             TECH_E1 + "; AST->z3 bit-vector translation for BlockOption.decode", "DESIGN.md 5 C01"),
+    "C10": ("On stack S (real Context/TokenManager/MessageManager/MessageInterfaceUDP6/UDP6EndpointAddress over a fake datagram "
+            "transport, virtual time) one incoming datagram of every type x 13 codes x token known/unknown x received on "
+            "unicast/multicast x fast/slow handler x 12 No-Response values x 3 response classes (all by symbolic index) is "
+            "processed to quiescence and the datagrams on the wire are compared with the RFC 7252 section 4 / RFC 7967 table; "
+            "outgoing CON to multicast destinations is refused; code classification for all 256 codes.",
+            "fake datagram transport, SimLoop, integer tuning, deterministic random stubs; one incoming message per run",
+            TECH_E1, "DESIGN.md 5 C10"),
     "C11": ("protect/unprotect and the OSCORE option codec run over ideal-primitive stand-ins, so that hiding, binding and tamper "
             "detection reduce to what aiocoap's own code puts into key, nonce, AAD and the outer message: round trip and outer-"
             "message content for request/response shapes x id/context profiles x sequence-number boundaries with symbolic payload "
